@@ -407,12 +407,14 @@ class Evaluator:
             if cdef.terms is not None and cdef.form == "deflines":
                 from .expr import first_term_line
                 base = first_term_line(cdef.as_dict())
-                value = 0
+                vals = []
                 for j, t in enumerate(cdef.terms):
                     self.trace.curline[elem] = base + j
-                    v = self.ev(t, ctx, env)
-                    value = v if j == 0 else value + v
-                self.trace.curline[elem] = base + len(cdef.terms)
+                    vals.append(self.ev(t, ctx, env))
+                self.trace.curline[elem] = base + len(cdef.terms)       # the return line adds them up
+                value = vals[0] if vals else 0
+                for v in vals[1:]:
+                    value = value + v
             else:
                 self.trace.curline[elem] = 1 if cdef.form == "lambda" else (
                     2 + (1 if cdef.doc else 0) + (1 if cdef.tick else 0))
